@@ -2,7 +2,7 @@
     Statements only; proofs in Run/RunFacts.v, Match/AdjProofs.v, Match/CoreProofs.v. *)
 From Coq Require Import ZArith List Bool.
 From V Require Import Csv.CsvModel Data.DataModel Scan.ScanModel Scan.ScanSpec Run.RunLoop Run.RunFacts Run.RunProofs Run.RunFold
-  Match.Adjudicate Match.AdjProofs Match.Core Match.CoreProofs Match.CoreRun Match.CounterEqRun Scan.PySem Match.AdjSrc Match.AdjSrcEq.
+  Match.Adjudicate Match.AdjProofs Match.Core Match.CoreProofs Match.CoreRun Match.CounterEqRun Scan.PySem Match.AdjSrc Match.AdjSrcEq Scan.ScanSrc Run.RunSem Run.RunSrc Run.RunSrcEq.
 Import ListNotations.
 Open Scope Z_scope.
 
@@ -84,6 +84,20 @@ Theorem C01_adjudication_source_lastblank : forall (S comp : Type) stp skp clear
   matches_src S comp stp skp clear_skip eval clear_errors do_lasts AND true xs s = Some (clear_errors (do_lasts s), PBool true).
 Proof. exact matches_src_lastblank. Qed.
 Print Assumptions C01_adjudication_source_lastblank.
+
+(** ... and the per-record step of the run loop as written in the source (CsvPath._consider_line, Run/RunSrc.v), run with the CORE match part
+    of ANY csvpath of the fragment as its matcher, is the model's step: the typed fragment's matcher leaves the line monitor alone
+    (core_m_pln), which is all the source-level theorem of 10.13 asks of a matcher *)
+Theorem C01_core_step_source : forall q blanks AND cs (c : cfg) (s : rs mx) (l : list ustring), q_scan c = false ->
+  consider_line_src ustring mx (core_m q blanks AND cs (end_line c)) (of_oz (from_line (scanner c))) (of_oz (to_line (scanner c)))
+    (PBool (all_lines (scanner c))) (PList (these (scanner c))) (of_oz (end_line c)) (cwnm c) true s l
+  = Some (fst (consider ustring mx (core_m q blanks AND cs (end_line c)) c s l),
+          PBool (ev_returned (snd (consider ustring mx (core_m q blanks AND cs (end_line c)) c s l)))).
+Proof.
+  intros q blanks AND cs c s l Hq. apply consider_line_src_eq; [|exact Hq].
+  intros s0 l0. apply core_m_pln.
+Qed.
+Print Assumptions C01_core_step_source.
 
 (** AND mode: the line fails exactly when some component, in its left-to-right state, votes false *)
 Theorem C01_and_mode : forall q blanks cs s l,
